@@ -332,6 +332,7 @@ type run struct {
 	sigs     map[string]drv.Step // registry of partial signatures seen: hex -> {v,e,i,k}
 	proxy    *httputil.ReverseProxy
 	hung     bool
+	listHeld bool
 }
 
 func (r *run) log(ev drv.Step) {
@@ -911,6 +912,15 @@ func (r *run) start(st drv.Step) {
 	}
 	ev := drv.Step{"ev": "Start", "c": c, "op": op, "kind": kind, "sel": sel, "v": v, "iv": iv, "e": drv.Num(st["e"]),
 		"src": drv.Str(st["src"]), "fv": drv.Num(st["fv"])}
+	if kind == "list" {
+		// os.Stdout is the process's: one `active-validator-list` at a time.  The executor waits here (other schedules
+		// finish theirs without us); a second one inside this schedule while the first is still at a gate is not started.
+		if r.listHeld {
+			return
+		}
+		stdoutMu.Lock()
+		r.listHeld = true
+	}
 	r.log(ev)
 	r.cmdOp[c] = op
 	r.running[op] = c
@@ -946,8 +956,10 @@ func runCLI(args []string) error {
 
 // runList captures what `active-validator-list --plaintext` prints.
 func (r *run) runList(args []string) ([]int, error) {
-	stdoutMu.Lock()
-	defer stdoutMu.Unlock()
+	defer func() {
+		r.listHeld = false
+		stdoutMu.Unlock()
+	}()
 	old := os.Stdout
 	pr, pw, err := os.Pipe()
 	if err != nil {
@@ -1219,6 +1231,23 @@ func (w *world) exec(sid int, sched []drv.Step) []drv.Step {
 	}
 	if !r.hung && len(r.running) == 0 {
 		r.log(drv.Step{"ev": "End"})
+	}
+	// whatever is still blocked at a gate (after a hang) is refused, so that the servers can be closed
+	for k := 0; len(r.running) > 0 && k < 400; k++ {
+		for op, g := range r.pending {
+			delete(r.pending, op)
+			g.release <- instr{fault: "pre", code: 500}
+		}
+		select {
+		case a := <-r.arrivals:
+			if a.g != nil {
+				r.pending[a.op] = a.g
+			} else {
+				delete(r.running, a.op)
+			}
+		case <-time.After(30 * time.Second):
+			k = 400
+		}
 	}
 	for _, d := range r.exitDir {
 		os.RemoveAll(d)
